@@ -271,6 +271,7 @@ class RecordingOpen:
         self.before_write = None
         self.on_raw_write = None
         self.n_truncate = 0
+        self.initial = b''
         self.fds = {}
         self._patch_os()
 
@@ -322,6 +323,13 @@ class RecordingOpen:
         if not writing or 'b' not in mode or (self.only and os.path.abspath(path) != os.path.abspath(self.only)):
             return builtins.open(path, mode, *a, **k)
         hid = len(self.handles)
+        if hid == 0:
+            # what the file holds when the writer first opens it: nothing if that open truncates, otherwise whatever was there before
+            pre = b''
+            if 'w' not in mode and os.path.exists(path):
+                with builtins.open(path, 'rb') as f_:
+                    pre = f_.read()
+            self.initial = pre
         fmode = mode.replace('b', '')
         raw = _RecFileIO(path, fmode, self, hid)
         self.handles.append((path, mode))
@@ -332,7 +340,7 @@ class RecordingOpen:
 
     def replay_py_prefix(self, n_py, cut=None):
         """File content if the first n_py Python-level writes had each reached the file atomically."""
-        buf = bytearray()
+        buf = bytearray(self.initial)
         for i, (hid, off, data) in enumerate(self.pydata[:n_py]):
             if off == -2:
                 _set_length(buf, int.from_bytes(data, 'little'))
@@ -347,7 +355,7 @@ class RecordingOpen:
 
     def replay_prefix(self, n_raw, cut=None):
         """File content after the first n_raw raw writes (the last one cut to `cut` bytes)."""
-        buf = bytearray()
+        buf = bytearray(self.initial)
         for i, (hid, off, data, _) in enumerate(self.raw[:n_raw]):
             if off == -2:
                 _set_length(buf, int.from_bytes(data, 'little'))
